@@ -5,7 +5,8 @@ Decided here are structural clauses that are genuine necessary conditions of it 
 
   R-C18-1  FileName: every use of the position of the last '.' as an extension boundary is reached only on
            paths on which that position was compared with the last path separator (typestate, path-sensitive;
-           the belief "a dot before the last separator is not an extension dot" is the one name()/setExt() hold).
+           the belief "a dot before the last separator is not an extension dot" is the one name()/setExt() hold);
+           every sibling locates the extension dot with the same kind of search (first / last '.') as ext().
   R-C18-2  token filter: every branch condition on the token length that dominates a push_back of a token in
            tokenize / split(char) / split(set) is implied by `length >= 1` (relational normal form).
   R-C18-3  SI ladder of prettyDouble / prettyNumber: threshold == divisor == value of the printed suffix,
@@ -22,6 +23,12 @@ Decided here are structural clauses that are genuine necessary conditions of it 
            reads with getline(stream(input), token, delimiter parameter).
   R-C18-8  cut points: FileName path/base cut behind the last separator, ext/dropExt/name/setExt cut at the dot;
            PseudoURL constructor skips "://" by its own length and cuts name=value around '='.
+
+  R-C18-9  PseudoURL::params keeps URL order: only appended to (one append per token, tokens 1..n ascending, token 0
+           is the file name), never handed to an operation that reorders or overwrites it (std::sort, unique, ...);
+           positive example in witness/c18_param_order.cpp.
+  R-C18-10 a rung that prints <integer>.<integer> prints a fraction that fits its digits: interval of the fraction
+           expression over the unsigned input with the constant unit of the call site (positive example in the witness).
 
 Not decided: split / re-join laws as statements over all strings, split(..., keepDelim=true), FileName
 normalisation in the constructors, addExt/operator+/operator-, the URL round trip as a whole, printed precision of
@@ -42,7 +49,9 @@ EXPLANATION = (
     "token spans exactly start..delimiter; the SI ladders of prettyDouble/prettyNumber are extracted rung by rung "
     "and compared with the SI table; loop-shape rules decide last-duplicate-wins in PseudoURL::getValue, the "
     "shift loop of removeArgs, the erase count of ArgumentList::remove and the advance rule of parseAndRemove; "
-    "normal forms of the iterator arithmetic decide the bound of longestBeginningMatch. Not decided: the "
+    "normal forms of the iterator arithmetic decide the bound of longestBeginningMatch; a who-may-write scan over every "
+    "access to PseudoURL::params decides that the list is only appended to in token order and never reordered; an "
+    "interval evaluation decides that an integer-printed fraction fits its digit count. Not decided: the "
     "split/re-join laws as statements over all strings, keepDelim, constructor normalisation, printed precision.")
 
 NPOS_V = 2 ** 64 - 1
@@ -300,6 +309,8 @@ class FnX(Normalizer):
                 return c
             rd = n.get('referencedDecl', {})
             d = rd.get('id')
+            if d in getattr(self, 'bind', {}):
+                return self.bind[d]
             init = self.single_init(d)
             v = self.vars.get(d)
             if init is not None and self.at is not None and (is_int_ct(v['ct']) or '__normal_iterator' in (v['ct'] or '')):
@@ -1079,9 +1090,132 @@ def input_role(tu, x, e, depth=0):
     return None
 
 
+class RungPrint:
+    """the print of one ladder rung, either directly in the branch or inside a helper called from it; expressions of the
+    helper are resolved through its parameters to the arguments of the call site"""
+
+    def __init__(self, tu, x, call, helper=None):
+        self.tu, self.x, self.call, self.helper = tu, x, call, helper
+        self.hx = None
+        self.argmap = {}
+        if helper is not None:
+            hc, hf, pcall = helper
+            self.hx = FnX(tu, hf)
+            self.call = pcall
+            for p, a in zip(hf.get('params', []), tu.kids(hc)[1:]):
+                self.argmap[p['id']] = a
+            self.hx.bind = {}
+            for pid, a in self.argmap.items():
+                c = num_const(tu, a)
+                if c is not None and float(c).is_integer():
+                    self.hx.bind[pid] = Poly.const(int(c))
+
+    def resolve(self, e, inner=True, depth=0):
+        """(expression, in_helper) after following helper parameters to the call site and single-definition locals"""
+        tu = self.tu
+        ox = self.hx if (inner and self.hx is not None) else self.x
+        e = tu.strip(e, casts=True)
+        if e is None or depth > 8:
+            return e, inner
+        if e.get('kind') == 'DeclRefExpr':
+            d = e.get('referencedDecl', {}).get('id')
+            if inner and d in self.argmap:
+                return self.resolve(self.argmap[d], False, depth + 1)
+            init = ox.single_init(d)
+            if init is not None and d not in ox.params:
+                r, inn = self.resolve(init, inner, depth + 1)
+                if r is not None and r.get('kind') in ('BinaryOperator', 'CharacterLiteral', 'IntegerLiteral', 'FloatingLiteral'):
+                    return r, inn
+        return e, inner
+
+    def const(self, e, inner=True):
+        r, inn = self.resolve(e, inner)
+        return num_const(self.tu, r) if r is not None else None
+
+    def role(self, e, inner=True):
+        r, inn = self.resolve(e, inner)
+        if r is None:
+            return None
+        return input_role(self.tu, self.x if not inn else self.hx, r) if not (inn and self.hx is not None) else None
+
+    def char(self, e):
+        r, inn = self.resolve(e, self.hx is not None)
+        if r is not None and r.get('kind') == 'CharacterLiteral':
+            return chr(int(r.get('value')))
+        return None
+
+
+def digit_interval(p, var_bounds):
+    """(lo, hi, exact) of an integer expression built from +, -, *constant, / and % (C++ unsigned semantics, no wrap):
+    sound interval; exact=True if both bounds are attained (every non-constant leaf occurs once, each step monotone or a
+    remainder over a range that covers all residues)"""
+    leaves = []
+
+    def rng(q):
+        # q: Poly
+        lo = hi = Fraction(0)
+        exact = True
+        nonconst = 0
+        for m, c in q.t:
+            if m == ():
+                lo += c
+                hi += c
+                continue
+            if len(m) != 1 or m[0][1] != 1:
+                return None
+            r = atom_rng(m[0][0])
+            if r is None:
+                return None
+            alo, ahi, aex = r
+            nonconst += 1
+            exact = exact and aex
+            cands = [c * alo, c * ahi]
+            lo += min(cands)
+            hi += max(cands)
+        if nonconst > 1:
+            exact = False
+        return lo, hi, exact
+
+    def atom_rng(a):
+        if isinstance(a, tuple) and a and a[0] == 'var':
+            leaves.append(a)
+            b = var_bounds(a)
+            if b is None:
+                return None
+            return Fraction(b[0]), Fraction(b[1]), True
+        if isinstance(a, tuple) and a and a[0] in ('div', 'mod') and len(a) == 3:
+            ra, rb = rng(a[1]), rng(a[2])
+            if ra is None or rb is None:
+                return None
+            if ra[0] < 0 or rb[0] < 1:
+                return None
+            if a[0] == 'div':
+                if rb[0] != rb[1]:
+                    return ra[0] // rb[1], ra[1] // rb[0], False
+                return ra[0] // rb[0], ra[1] // rb[0], ra[2]
+            # remainder
+            if rb[0] != rb[1]:
+                return Fraction(0), min(ra[1], rb[1] - 1), False
+            mod = rb[0]
+            if ra[1] - ra[0] >= mod - 1:
+                return Fraction(0), mod - 1, ra[2]
+            return Fraction(0), min(ra[1], mod - 1), False
+        return None
+
+    r = rng(p)
+    if r is None:
+        return None
+    lo, hi, exact = r
+    if len(leaves) != len(set(leaves)):
+        exact = False
+    return lo, hi, exact
+
+
 def check_ladder(ctx, tu, qname):
     R = 'R-C18-3'
+    R10 = 'R-C18-10'
     n = 0
+    n10 = 0
     for f in tu.fns(q=qname):
         if f['dep'] or tu.cfg(f) is None:
             continue
@@ -1124,7 +1258,20 @@ def check_ladder(ctx, tu, qname):
                     nd = tu.node(e[1])
                     if nd is not None and nd.get('kind') == 'CallExpr' and tu.sd(nd).get('q') in PRINTF_Q:
                         call = nd
-            rungs.append({'op': op, 'thr': rv, 'role': role, 'cond': c, 'call': call, 'tested': tu.show(l)})
+            helper = None
+            if call is None:
+                for e in tb.el:
+                    if e[0] == 'S':
+                        nd = tu.node(e[1])
+                        if nd is not None and nd.get('kind') == 'CallExpr' and tu.sd(nd).get('q') not in PRINTF_Q:
+                            hf = tu.callee_fn(nd)
+                            if hf is not None and not hf['dep'] and tu.cfg(hf) is not None:
+                                pcs = [y for bb, ii, y in tu.cfg(hf).stmts()
+                                       if y.get('kind') == 'CallExpr' and tu.sd(y).get('q') in PRINTF_Q]
+                                if len(pcs) == 1:
+                                    helper = (nd, hf, pcs[0])
+                                    call = pcs[0]
+            rungs.append({'op': op, 'thr': rv, 'role': role, 'cond': c, 'call': call, 'tested': tu.show(l), 'helper': helper})
             b = g.blocks[b.succ[1]]
         if not rungs:
             ctx.undecided(R, '%s %s' % (fname, f['fty']), 'no if / else-if ladder of comparisons with constants found', tu.fn_loc(f))
@@ -1141,9 +1288,12 @@ def check_ladder(ctx, tu, qname):
             suffix = None
             div = None
             call = rg['call']
+            intpair = None
             if call is None:
                 unds.append('no snprintf call in the branch of `%s`' % tu.show(c))
             else:
+                rp = RungPrint(tu, x, call, rg.get('helper'))
+                inner = rp.hx is not None
                 args = tu.kids(call)[1:]
                 fi = None
                 for i, a in enumerate(args):
@@ -1156,40 +1306,77 @@ def check_ladder(ctx, tu, qname):
                 else:
                     fmt = tu.strip(args[fi], casts=True).get('value', '')
                     m = re.match(r'^"%[-+ 0#]*\d*(?:\.\d+)?l?[fFgGeE](%c|[A-Za-z])?"$', fmt)
+                    mi = re.match(r'^"%\d*(?:z|l|ll|j|t)?[udi]\.%(0\d+)?(?:z|l|ll|j|t)?[udi](%c|[A-Za-z])?"$', fmt)
                     rest = args[fi + 1:]
-                    if not m or not rest:
+                    if mi and len(rest) >= 2:
+                        intpair = (rest[1], int(mi.group(1)[1:]) if mi.group(1) else 1, rp)
+                        sfx, rest_s = mi.group(2), rest[2:]
+                    elif m and rest:
+                        sfx, rest_s = m.group(1), rest[1:]
+                    else:
+                        sfx = rest_s = None
+                    if sfx is None and rest_s is None:
                         unds.append('format %s is not <number><suffix>' % fmt)
                     else:
-                        if m.group(1) == '%c':
-                            if len(rest) >= 2:
-                                ch = tu.strip(rest[1], casts=True)
-                                if ch.get('kind') == 'CharacterLiteral':
-                                    suffix = chr(int(ch.get('value')))
+                        if sfx == '%c':
+                            if rest_s:
+                                suffix = rp.char(rest_s[0])
                             if suffix is None:
                                 unds.append('suffix character of the print is not a literal')
-                        elif m.group(1):
-                            suffix = m.group(1)
+                        elif sfx:
+                            suffix = sfx
                         else:
                             unds.append('the print of this rung has no suffix')
-                        sc = tu.strip(rest[0], casts=True)
-                        num = None
-                        if sc.get('kind') == 'BinaryOperator' and sc.get('opcode') in ('/', '*'):
-                            a, b2 = tu.kids(sc)[:2]
-                            av, bv = num_const(tu, a), num_const(tu, b2)
-                            if sc['opcode'] == '/' and bv:
-                                num, div = a, bv
-                            elif sc['opcode'] == '*' and bv:
-                                num, div = a, 1.0 / bv
-                            elif sc['opcode'] == '*' and av:
-                                num, div = b2, 1.0 / av
-                        if num is None:
-                            unds.append('printed value `%s` is not input / constant or input * constant' % tu.show(sc))
+                        if intpair:
+                            # integer part: nested divisions by constants of (input + rounding offset)
+                            ox = rp.hx if rp.hx is not None else x
+                            wp = ox.poly_at(rest[0])
+                            prod = 1
+                            for _ in range(6):
+                                a = wp.as_atom()
+                                if isinstance(a, tuple) and a[0] == 'div' and len(a) == 3 and a[2].as_int() and a[2].as_int() > 0:
+                                    prod *= a[2].as_int()
+                                    wp = a[1]
+                                else:
+                                    break
+                            ats = wp.atoms(deep=False)
+                            okin = False
+                            if prod > 1 and len(ats) == 1 and isinstance(ats[0], tuple) and ats[0][0] == 'var':
+                                lin = wp.linear_in(ats[0])
+                                off = lin[1].as_int() if lin and lin[0] == 1 else None
+                                pid = ats[0][1]
+                                src = rp.argmap.get(pid) if rp.hx is not None else None
+                                if rp.hx is not None:
+                                    isin = src is not None and input_role(tu, x, src) is not None and input_role(tu, x, src)[0] == 'param'
+                                else:
+                                    isin = pid in x.params
+                                if off is not None and 0 <= off < prod and isin:
+                                    okin = True
+                            if okin:
+                                div = float(prod)
+                            else:
+                                unds.append('integer part `%s` is not (input + rounding) / constant' % ox.poly_at(rest[0]).show())
                         else:
-                            nr = input_role(tu, x, num)
-                            if nr is None:
-                                unds.append('scaled value `%s` is not the input' % tu.show(num))
-                            elif nr[0] == 'abs' and not unsigned_in:
-                                probs.append(('sign', 'the absolute value is printed: the sign of the input is lost'))
+                            sc, sc_in = rp.resolve(rest[0], inner)
+                            num = None
+                            if sc is not None and sc.get('kind') == 'BinaryOperator' and sc.get('opcode') in ('/', '*'):
+                                a, b2 = tu.kids(sc)[:2]
+                                av, bv = rp.const(a, sc_in), rp.const(b2, sc_in)
+                                if sc['opcode'] == '/' and bv:
+                                    num, div = a, bv
+                                elif sc['opcode'] == '*' and bv:
+                                    num, div = a, 1.0 / bv
+                                elif sc['opcode'] == '*' and av:
+                                    num, div = b2, 1.0 / av
+                            if num is None:
+                                unds.append('printed value `%s` is not input / constant or input * constant' % tu.show(sc))
+                            else:
+                                nres, n_in = rp.resolve(num, sc_in)
+                                nr = input_role(tu, x, nres) if not (n_in and rp.hx is not None) else None
+                                if nr is None:
+                                    unds.append('scaled value `%s` is not the input' % tu.show(num))
+                                elif nr[0] == 'abs' and not unsigned_in:
+                                    probs.append(('sign', 'the absolute value is printed: the sign of the input is lost'))
             if rg['role'] is None:
                 unds.append('tested value `%s` is not the input or its absolute value' % rg['tested'])
             elif rg['role'][0] == 'param' and not unsigned_in:
@@ -1225,6 +1412,36 @@ def check_ladder(ctx, tu, qname):
                     ctx.undecided(R, inst, u, loc)
             else:
                 ctx.ok(R, inst, 'threshold %g, divisor %g' % (rg['thr'], div), loc)
+            if intpair is not None:
+                n10 += 1
+                farg, width, rp = intpair
+                ox = rp.hx if rp.hx is not None else x
+                fp = ox.poly_at(farg)
+                limit = 10 ** width
+
+                def vb(a, ox=ox):
+                    v = ox.vars.get(a[1])
+                    if v is None or not v['param'] or v['defs'] or v['escaped']:
+                        return None
+                    t = plain_ct(v['ct'])
+                    if t.startswith('unsigned'):
+                        return (0, 2 ** (64 if 'long' in t else 32 if 'int' in t else 16 if 'short' in t else 8) - 1)
+                    return None
+                iv = digit_interval(fp, vb)
+                dinst = '%s: rung `%s`: fraction printed by `%s`' % (fname, tu.show(c), tu.show(call))
+                dloc = tu.loc(call)
+                if iv is None:
+                    ctx.undecided(R10, dinst, 'cannot bound the fraction `%s`' % fp.show(), dloc)
+                elif iv[1] < limit:
+                    ctx.ok(R10, dinst, 'fraction `%s` lies in [%d, %d]' % (fp.show(), iv[0], iv[1]), dloc)
+                elif iv[2]:
+                    ctx.violation(R10, dinst, 'the value `%s` printed behind the decimal point with %d digit(s) ranges over [%d, %d]: '
+                                  'for some inputs it is %d, which prints one digit too many, and the carry into the integer part is '
+                                  'missing (1960 -> "1.10k" instead of "2.0k")' % (fp.show(), width, iv[0], iv[1], iv[1]), dloc,
+                                  key='%s|%s|%s|fraction-overflow' % (R10, tu.fn_file(rp.helper[1]) if rp.helper else file,
+                                                                     fn_name(rp.helper[1]) if rp.helper else fname))
+                else:
+                    ctx.undecided(R10, dinst, 'the fraction `%s` may reach %d (interval not exact)' % (fp.show(), iv[1]), dloc)
         for u in und:
             allok = False
             ctx.undecided(R, fname, u, tu.fn_loc(f))
@@ -1248,7 +1465,7 @@ def check_ladder(ctx, tu, qname):
                     ctx.violation(R, inst, pmsg, tu.fn_loc(f), key='%s|%s|%s|ladder-order' % (R, file, fname))
             else:
                 ctx.ok(R, inst, 'suffixes %s' % ''.join(r['suffix'] for r in rungs), tu.fn_loc(f))
-    return n
+    return n, n10
 
 
 # ====================================================================================================
@@ -3417,6 +3634,28 @@ def run(ctx):
     selftest.run(ctx)
 
 
+class _Recorder:
+    """stands in for ctx when a rule is run on a positive example: verdicts are recorded, not reported"""
+
+    def __init__(self):
+        self.log = []
+
+    def ok(self, rule, inst, *a, **k):
+        self.log.append((rule, 'ok', inst))
+
+    def violation(self, rule, inst, *a, **k):
+        self.log.append((rule, 'violation', inst))
+
+    def undecided(self, rule, inst, *a, **k):
+        self.log.append((rule, 'undecided', inst))
+
+    def describe(self, *a, **k):
+        pass
+
+    def broken(self, msg):
+        self.log.append(('broken', 'undecided', msg))
+
+
 ANCHORS = {
     'drv': ['rkcommon::utility::longestBeginningMatch', 'rkcommon::utility::beginsWith', 'rkcommon::utility::split',
             'rkcommon::utility::ArgumentList::ArgumentList', 'rkcommon::utility::ArgumentList::remove',
@@ -3449,8 +3688,21 @@ def run_on(ctx, tu_drv, tu_url, tu_fn, tu_common, tu_w):
     ctx.floor('R-C18-9', n9, 4, 'accesses to PseudoURL::params (2 appends, 2 scans) + the constructor loop')
     ctx.describe('R-C18-3', 'SI ladder: each rung of prettyDouble/prettyNumber has threshold == divisor == value of its suffix '
                             '(sub-unit rungs: threshold == 1000 x value), rungs form a gap-free ladder in steps of 10^3')
-    n3 = check_ladder(ctx, tu_common, 'rkcommon::prettyDouble') + check_ladder(ctx, tu_common, 'rkcommon::prettyNumber')
+    ctx.describe('R-C18-10', 'a rung that prints <integer>.<integer> prints a fraction that fits its digit count: interval of the '
+                             'fraction expression (/, %, + over the unsigned input and the constant unit) stays below 10^digits')
+    a3, a10 = check_ladder(ctx, tu_common, 'rkcommon::prettyDouble')
+    b3, b10 = check_ladder(ctx, tu_common, 'rkcommon::prettyNumber')
+    n3 = a3 + b3
     ctx.floor('R-C18-3', n3, 12, 'prettyDouble: 11 rungs, prettyNumber: 6 rungs on the pinned tree')
+    # positive example: /repo prints its mantissas with %.1f today, so R-C18-10 has no instance there
+    rec = _Recorder()
+    check_ladder(rec, tu_w, 'rkverif::c18w::prettyLossy')
+    check_ladder(rec, tu_w, 'rkverif::c18w::prettyCarry')
+    got = [(r, k) for r, k, i in rec.log if r == 'R-C18-10']
+    if sum(1 for r, k in got if k == 'violation') != 2 or sum(1 for r, k in got if k == 'ok') != 2 or \
+            any(k in ('undecided', 'violation') for r, k, i in rec.log if r == 'R-C18-3'):
+        ctx.broken('R-C18-10: the positive example in witness/c18_param_order.cpp is not classified as expected (%s)'
+                   % [(r, k) for r, k, i in rec.log if k != 'ok' or r == 'R-C18-10'])
     ctx.describe('R-C18-5', 'removeArgs: av[i-h] = av[i] for i in [where+h, ac) upwards, then ac -= h; ArgumentList::remove erases '
                             'h elements at begin()+where; parseAndRemove advances iff nothing was consumed, else removes at the index')
     n5 = check_remove_args(ctx, tu_common) + check_arglist(ctx, tu_drv)
